@@ -93,6 +93,12 @@ def diagnose(tree, drop):
             continue          # a fragment that does not lex on its own (e.g. a lone `)`): not a fusion candidate
         if ab != a + b:
             return 'FUSE %s[%s] + [%s]%s' % (a[-1][0] if a else '?', char_class(x[-1:]), char_class(y[:1]), b[0][0] if b else '?')
+    # `get` / `set` printed as a plain identifier with exactly one blank and an identifier-like word behind it: the lexer's accessor
+    # look-ahead types it GETPROP / SETPROP
+    words = [f for f in frags if f.strip()]
+    for x, y in zip(words, words[1:]):
+        if x in ('get', 'set') and lex_types(x + ' ' + y)[:1] and lex_types(x + ' ' + y)[0][0] in ('GETPROP', 'SETPROP'):
+            return 'ACCESSOR-LOOKAHEAD %s + %s' % (x, (lex_types(y) or [('?', '')])[0][0])
     if drop:
         full = [f.text for f in unparsers.minify_printer(drop_semi=False)(tree) if f.text.strip()]
         part = [f for f in frags if f.strip()]
